@@ -41,8 +41,8 @@ def run(path):
     if not specs:
         # records without a grammar spec (process-level routes): re-run the quick check of that property
         log("replay: record carries no grammar spec; re-running the quick check of %s" % prop)
-        from . import main
-        return main.main([prop, "quick"], locked=True)
+        import sys as _sys
+        return _sys.modules["vcheck.main"].main([prop, "quick"], locked=True)
     if not ws.build_tools(("genner",)):
         return 2
     # one-grammar (or one-group) batch built with the tree's generator
